@@ -37,6 +37,14 @@ def gen_cases(tier, seed):
         out.append({"seed": env.seed_for(seed, ID, tier, "wrapped", i), "mode": "wrapped"})
     for i in range(n // 20):
         out.append({"seed": env.seed_for(seed, ID, tier, "mutated", i), "mode": "mutated"})
+    for i in range(n // 12):
+        # direct evaluation RAISES (a needed call raises, Exception or not): run must not return a value; an unneeded failing call changes nothing
+        s = env.seed_for(seed, ID, tier, "raising", i)
+        r = random.Random(env.seed_for(s, "descriptor"))
+        out.append({"seed": s, "mode": "raising", "n": r.randint(2, maxcalls), "W": r.choice([1, 2, 2, 4, 8]), "sched": r.choice(["default", "random"]),
+                    "perturb": r.choice(["none", "instr"]), "max_errors": r.choice([0, 0, None, 2]),
+                    "faults": {"count": r.choice([1, 1, 2]), "kinds": r.choice([["exc", "value"], ["base", "sysexit", "genexit", "kbi", "cancel", "falsybase"], ["falsy", "callerr", "base"]])},
+                    "cfg": {"out": r.choice(["all", "sinks", "struct", "node"])}})
     out.extend(preempt.gen_descs(tier, seed, ID))  # "the same for every ... timing": deterministic single-preemption enumeration
     out.extend(preempt.gen_descs2(tier, seed, ID, pairs_quick=60))  # and (k1, k2) pairs of two preemptions
     return out
@@ -49,6 +57,33 @@ def preempt_oracle(R, ir):
     if not irmod.struct_eq(R.result, want):
         return f"run returned {irmod.canon(R.result)[:200]}; direct evaluation gives {irmod.canon(want)[:200]}"
     return None
+
+
+def run_raising(desc):
+    from vmon import plainrun
+
+    R = plainrun.execute(desc, record_args=False)
+    ir = R.ir
+    needed = ir.needed() & set(ir.harness_calls())
+    failing_needed = sorted(set(R.fail) & needed)
+    counters = {"runs": 1, "raising_runs": 1, "raising_runs_needed_call_raises": int(bool(failing_needed)), "raising_runs_only_unneeded_raise": int(not failing_needed)}
+    bad = None
+    if failing_needed:
+        if R.exc is None:
+            kinds = {n: R.fail[n][0] for n in failing_needed}
+            bad = f"run returned {irmod.canon(R.result, ir.opaque_ids)[:120]} although needed call(s) {kinds} raise: direct evaluation raises"
+    else:
+        want, _ = irmod.evaluate(ir)
+        if R.exc is not None:
+            bad = f"run raised {R.exc!r} although only unneeded call(s) {sorted(R.fail)} would raise: direct evaluation succeeds"
+        elif not irmod.struct_eq(R.result, want):
+            bad = f"run returned {irmod.canon(R.result, ir.opaque_ids)[:200]}; direct evaluation gives {irmod.canon(want, ir.opaque_ids)[:200]}"
+    res = {"status": "ok", "counters": counters, "sets": {"features_exercised": ["raising:" + k for k, _ in R.fail.values()]}, "nontrivial": bool(failing_needed),
+           "sig": hashlib.sha1(f"raising|{desc['seed']}".encode()).hexdigest()[:16]}
+    if bad:
+        res.update(status="violation", mechanism="value-mismatch", witness={"plan": ir.describe(200), "failing": {str(k): v[0] for k, v in R.fail.items()}, "history": R.H.compact_history(200)},
+                   detail=f"[W={desc['W']} sched={desc['sched']} perturb={desc['perturb']} max_errors={desc['max_errors']}] {bad}")
+    return res
 
 
 def compare_args(ir, E, nid, seen):
@@ -209,6 +244,8 @@ def run_case(desc):
         return run_wrapped(desc)
     if desc.get("mode") == "mutated":
         return run_mutated(desc)
+    if desc.get("mode") == "raising":
+        return run_raising(desc)
     if desc.get("mode") == "preempt1":
         r_ = preempt.enumerate_case(desc, preempt_oracle)
         r_.setdefault("sets", {})["features_exercised"] = ["preempt1"]
